@@ -127,6 +127,41 @@ def check_stream(acc, g, rd, lmsgs, sigbase, api="message"):
             acc.violation("known-avp-flags-from-class-default" if flagsonly else "redump-differs",
                           "message %d: re-serialised bytes differ from the original at offset %d" % (
                               k, next((j for j in range(min(len(red), len(R.encode(lm)))) if red[j] != R.encode(lm)[j]), -1)), wit)
+    if sigbase != "concurrent" and (len(stream) + len(lmsgs)) % 4 == 0:
+        second_decode(acc, stream, msgs, wit)
+
+
+def second_decode(acc, stream, msgs, wit):
+    """The same bytes decoded a second time give new objects: nothing of the first result (which the application may have
+    changed meanwhile) is shared with or shows in the second."""
+    from bromelia.base import DiameterMessage
+    first_ids = set()
+    for m in msgs:
+        first_ids.add(id(m))
+        first_ids.add(id(m.header))
+        for a in m.avps:
+            first_ids.add(id(a))
+    before = [m.dump() for m in msgs]
+    # the application scribbles on the first result
+    for m in msgs:
+        try:
+            if m.avps:
+                m.avps[0].data = b"scribbled"
+            m.header.hop_by_hop = 0x5ca1ab1e
+        except BaseException:
+            pass
+    acc.counters["second_decodes"] += 1
+    try:
+        again = DiameterMessage.load(stream)
+    except BaseException as ex:
+        acc.violation("second-decode-raises", "the same stream decoded again raised %r" % (ex,), wit)
+        return
+    shared = [type(o).__name__ for m in again for o in [m, m.header] + list(m.avps) if id(o) in first_ids]
+    if shared:
+        acc.violation("decoded-objects-shared-between-two-decodes", "objects of the first result come back in the second: %s" % shared[:5], wit)
+        return
+    if [m.dump() for m in again] != before:
+        acc.violation("second-decode-differs", "the same stream decoded again re-serialises differently (after the first result was changed by the application)", wit)
 
 
 def normalise(lavp, rd):
@@ -392,7 +427,7 @@ def main(tier, seed):
                            "concurrent stage: 2..4 tasks decode at once under the deterministic scheduler with line-level preemption inside the class registry and DiameterAVP.load"],
                           t0, extra_cov={"flag_grid": "all consistent flag bytes x %d classes%s" % (
                               len(grid), "" if q else " (exhaustive over the dictionary)")},
-                          require_counters=("load_calls", "redump_checks", "avp_load_calls", "late_class_decodes", "concurrent_decode_executions", "preemptions_in_the_registry"))
+                          require_counters=("load_calls", "second_decodes", "redump_checks", "avp_load_calls", "late_class_decodes", "concurrent_decode_executions", "preemptions_in_the_registry"))
 
 
 def replay(w):
